@@ -197,17 +197,18 @@ Section WithOracle.
             match n with
             | Seq es =>
                 match es with
-                | [] => Panic      (* elems[len(elems)-1] with len 0 *)
+                | [] => Ok (n, None)   (* len(elems) == 0: no match (repo fix 5cf7cc6; was elems[-1], a panic) *)
                 | _ =>
                     let i := List.length es - 1 in
                     match nth_error es i with
                     | Some e =>
                         do r <- walk cr ps' k e;
                         Ok (Seq (replace_nth i (fst r) es), snd r)
-                    | None => Panic
+                    | None => Ok (n, None)   (* unreachable: the last index of a non-empty list exists *)
                     end
                 end
-            | _ => if is_null n then Panic else Err
+            | _ => if is_null n then Ok (n, None)   (* a null node has zero elements: no match *)
+                   else Err
             end
         | PSel nm v =>
             match n with
